@@ -2,7 +2,8 @@
 # Confirm a seeded change in a scratch worktree: demo passes clean / fails patched, package imports, full suite passes with it.
 # usage: seed_confirm.sh <dir under /verif/seeded containing patch.diff and demo.py> [pytest -n procs]
 D=$1; N=${2:-6}
-WT=/tmp/seedwt_$(basename $D)
+ID=$(basename $D | cut -d_ -f1)
+WT=/tmp/mut/$ID      # the demos assert that pydra is imported from the worktree path their author used
 git -C /repo worktree remove --force $WT 2>/dev/null; rm -rf $WT
 git -C /repo worktree add -q --detach $WT HEAD || exit 2
 cp /venv/lib/python3.12/site-packages/pydra/utils/_version.py $WT/pydra/utils/_version.py
